@@ -145,6 +145,7 @@ type Case struct {
 	Kind              string     // filling | patterntext | noise
 	Prior             []PriorReq `json:",omitempty"` // requests served by the same app (pooled ctx) before the main one
 	Override          []string   `json:",omitempty"` // built-in constraint names under which the app registered a custom constraint of its own
+	Fillers           int        `json:",omitempty"` // mounted: the sub-app first registers this many other custom constraints and a route that uses one of them; the root app has a custom constraint of its own
 	Mounted           bool       `json:",omitempty"` // the pattern and the custom constraints are registered on a sub-app that is mounted at "/" of a plain root app
 }
 
@@ -174,6 +175,12 @@ type overrideC struct{ name string }
 
 func (o overrideC) Name() string                           { return o.name }
 func (o overrideC) Execute(param string, _ ...string) bool { return overrides[o.name](param) }
+
+// fillerC: a custom constraint that accepts everything (it only occupies a place in the app's list)
+type fillerC struct{ name string }
+
+func (f fillerC) Name() string                 { return f.name }
+func (fillerC) Execute(string, ...string) bool { return true }
 
 type evenC struct{}
 
@@ -242,6 +249,13 @@ func check(c Case) vk.Verdict {
 	root := app
 	if c.Mounted {
 		app = fiber.New(fiber.Config{CaseSensitive: c.CS, StrictRouting: c.Strict, UnescapePath: c.Unesc})
+		if c.Fillers > 0 {
+			root.RegisterCustomConstraint(fillerC{"rootOnly"})
+			for i := 0; i < c.Fillers; i++ {
+				app.RegisterCustomConstraint(fillerC{fmt.Sprintf("f%d", i)})
+			}
+			app.Get("/zz-filler/:d<f0>", func(fiber.Ctx) error { return nil })
+		}
 	}
 	app.RegisterCustomConstraint(evenC{})
 	app.RegisterCustomConstraint(evenCapC{})
@@ -534,6 +548,9 @@ func genCase(t *rapid.T) Case {
 		c.Override = rapid.SliceOfNDistinct(rapid.SampledFrom([]string{"int", "bool", "alpha"}), 1, 2, rapid.ID[string]).Draw(t, "overridden")
 	}
 	c.Mounted = rapid.IntRange(0, 4).Draw(t, "mounted") == 0
+	if c.Mounted {
+		c.Fillers = rapid.SampledFrom([]int{0, 0, 1, 2, 3, 5, 6}).Draw(t, "fillers")
+	}
 	setOverridden(c.Override) // value generation below asks the constraint model
 	defer setOverridden(nil)
 	c.Toks = genToks(t)
